@@ -31,7 +31,7 @@ CONFIG = {
     'shrink': False,   # a case is a complete schedule; removing steps from it does not give a schedule
     'rule': _COMMON_RULE,
     'assumptions': _ASSUME,
-    'trusted_base': _TRUST,
+    'trusted_base': _TRUST + _TRUST_LIFE,
     'partial': [],
 }
 
